@@ -181,6 +181,16 @@ var crashCorpus = []string{
 	"SELECT ONCE.crashf(id DIV 0) AS v FROM t",
 	"SELECT DISTINCT (SELECT p FROM items) AS s, * FROM t",
 	"SELECT DISTINCT (SELECT * FROM dual) AS s, * FROM t",
+	// the backward reference selected as a VALUE: the row then points at the enclosing scope, which must not come to
+	// contain the result (memoised CTE rows) — formatting such a row (DISTINCT, UNION, GROUP BY) would never end
+	"WITH c AS (SELECT (SELECT `<-` AS p FROM dual) AS x FROM t) SELECT DISTINCT * FROM c",
+	"WITH c AS (SELECT (SELECT `<-` AS p FROM dual) AS x FROM t) SELECT * FROM c UNION SELECT * FROM c",
+	"WITH c AS (SELECT id, (SELECT `<-` AS p FROM dual) AS x FROM t) SELECT x, COUNT(*) AS k FROM c GROUP BY x",
+	"WITH c AS (SELECT (SELECT `<-` AS p FROM dual) AS x FROM t), d AS (SELECT DISTINCT * FROM c) SELECT DISTINCT * FROM d",
+	"WITH c AS (SELECT (SELECT `<-.<-` AS p FROM items LIMIT 1) AS x FROM t) SELECT DISTINCT * FROM c ORDER BY x",
+	"SELECT DISTINCT * FROM (SELECT (SELECT `<-` AS p FROM dual) AS x FROM t) AS d",
+	"SELECT DISTINCT (SELECT `<-` AS p FROM dual) AS x, * FROM t",
+	"WITH c AS (SELECT id FROM t) SELECT DISTINCT (SELECT `<-` AS p FROM dual) AS x FROM c",
 	"SELECT * FROM t ORDER BY (SELECT 1 FROM dual)",
 	"SELECT * FROM t x PARALLEL JOIN u y ON x.n1 = y.n1 AND x.b1",
 	"SELECT * FROM t x PARALLEL LEFT JOIN u y ON NOT x.n1",
